@@ -642,6 +642,28 @@ def container_method(
             return V(p, TInt)
         if m == 'copy':
             return recv
+        # queue.Queue modelled as a list (FIFO)
+        if m == 'put':
+            v = ex.coerce(st, args[0], ty.elem)
+            write_back(ex.mk_list(z3.Store(arr, ln, v.t), ln + 1, ty.elem))
+            return ex.as_v(st, None)
+        if m == 'empty':
+            return V(ln == 0, TBool)
+        if m in ('get_nowait', 'get'):
+            if m == 'get_nowait':
+                run.implicit(ln > 0, 'Empty', n)
+            else:
+                # blocking get: returns once the other thread has put
+                # something; modelled by the contract's rely (see C07)
+                if not run.branch(ln > 0, 'queue nonempty'):
+                    raise _PathEnd('blocked on empty queue')
+            v = V(z3.Select(arr, 0), ty.elem)
+            ex.known(st, v)
+            k = z3.Int(S.fresh_name('qk'))
+            write_back(ex.mk_list(
+                z3.Lambda([k], z3.Select(arr, k + 1)), ln - 1, ty.elem,
+            ))
+            return v
     if isinstance(ty, TDict):
         s = S.sort(ty)
         if m == 'pop':
@@ -818,7 +840,22 @@ def apply_contract(
     finally:
         run.frames.pop()
     for text, cond in pres:
+        if text.startswith('B:'):
+            ex.used_assumed.add(
+                'precondition of %s decided by the bounded check only: %s'
+                % (qual, text[2:70].replace('\n', ' ')),
+            )
+            continue
         run.oblige(cond, 'requires[%s]' % qual, site, text)
+    # a path that is already infeasible (e.g. excluded by a quantified
+    # invariant that the quantifier-free feasibility check cannot use) ends
+    # here; it must not be mistaken for an inconsistent callee contract
+    st.solver.set('timeout', 3000)
+    r0 = st.solver.check()
+    st.solver.set('timeout', ex.timeout_ms)
+    if r0 == z3.unsat:
+        raise _PathEnd('infeasible')
+    run.materialize(c.modifies)
     old = st.snapshot()
     run.havoc_fields(c.modifies)
     res: Any = None
@@ -838,7 +875,11 @@ def apply_contract(
             assume_posts(run, fr, posts, old, None, c)
             raise PyExc(exc)
     assume_posts(run, fr, c.ensures, old, res, c)
-    ex.used_assumed.discard('')
+    if run.st.qf.check() == z3.unsat:
+        raise Unsupported(
+            'the assumed postcondition of %s contradicts the path '
+            '(inconsistent contract?)' % qual,
+        )
     return res
 
 
@@ -926,13 +967,37 @@ def spec_call(run: Any, name: str, n: ast.Call) -> Any:
         v = run.evalv(n.args[0])
         if v.ty is TNone:
             return V(z3.BoolVal(True), TBool)
+        if not isinstance(v.ty, TOpt):
+            return V(z3.BoolVal(False), TBool)
         return V(S.sort(v.ty).is_none(v.t), TBool)
     if name == 'is_some':
         v = run.evalv(n.args[0])
+        if v.ty is TNone:
+            return V(z3.BoolVal(False), TBool)
+        if not isinstance(v.ty, TOpt):
+            return V(z3.BoolVal(True), TBool)
         return V(S.sort(v.ty).is_some(v.t), TBool)
     if name == 'val':
         v = run.evalv(n.args[0])
+        if not isinstance(v.ty, TOpt):
+            return v
         return V(S.sort(v.ty).v(v.t), v.ty.inner)
+    if name == 'aslist':
+        from .run import ANY_LIST
+        v = run.evalv(n.args[0])
+        return ex.view(st, v, ANY_LIST) if v.ty is TAny else v
+    if name == 'asopt':
+        v = run.evalv(n.args[0])
+        return ex.view(st, v, TOpt(TAny)) if v.ty is TAny else v
+    if name == 'is_list':
+        from .run import ANY_LIST
+        v = run.evalv(n.args[0])
+        ex.any_fns(st, ANY_LIST)
+        return V(ex.any_tag(v.t) == ex.tag_of(ANY_LIST), TBool)
+    if name == 'is_opt':
+        v = run.evalv(n.args[0])
+        ex.any_fns(st, TOpt(TAny))
+        return V(ex.any_tag(v.t) == ex.tag_of(TOpt(TAny)), TBool)
     if name == 'nsent':
         return V(st.eff_len, TInt)
     if name == 'eff':
@@ -963,6 +1028,11 @@ def spec_call(run: Any, name: str, n: ast.Call) -> Any:
         return ex.coerce(
             st, V(ex.Eff.a(z3.Select(st.eff_arr, i)), TAny), ty,
         )
+    if name in ('eff_b', 'eff_c'):
+        i = run.evalv(n.args[0]).t
+        ty = run.p.tenv.parse(ast.literal_eval(n.args[1]))
+        acc = ex.Eff.b if name == 'eff_b' else ex.Eff.c
+        return ex.view(st, V(acc(z3.Select(st.eff_arr, i)), TAny), ty)
     if name == 'unchanged':
         conds = []
         for a in n.args:
